@@ -352,7 +352,8 @@ def cleanup_dir():
 
 # ---------------------------------------------------------------------------
 # helpers shared by the E3 checks
-def prepare(workload, skip, *, events=False, setup_actions=(), max_steps=400):
+def prepare(workload, skip, *, events=False, setup_actions=(), max_steps=400, post_actions=(), budget=None,
+            signal_spec=None):
     """Drive the workload sequentially (FIFO) on the in-memory world, never delivering a
     message whose label matches one of the `skip` prefixes; returns the image in which only
     such messages remain, plus what is needed to rebuild the world."""
@@ -360,26 +361,39 @@ def prepare(workload, skip, *, events=False, setup_actions=(), max_steps=400):
     from .e1jobs import world
 
     w = world(events=events)
-    ex = Explorer(w, workload, [], {})
+    ex = Explorer(w, workload, [], dict(budget or {}), signal_spec=signal_spec)
     st = ex.initial()
     from .world import pack
 
     st.blob = pack(w.image())
     steps = 0
-    for name in setup_actions:
+
+    def act(st, name):
         acts = dict(ex.enabled(st))
         tr, b = ex.apply(st, (name, acts[name]))
         st, _ = ex.fold(st, tr, b)
         st.blob = pack(w.image())
-    while steps < max_steps:
-        acts = [a for a in ex.enabled(st) if a[0].startswith("d:") and not any(a[0][2:].startswith(s) for s in skip)]
-        if not acts:
-            break
-        a = min(acts, key=lambda a: a[1])
-        tr, b = ex.apply(st, a)
-        st, _ = ex.fold(st, tr, b)
-        st.blob = pack(w.image())
-        steps += 1
+        return st
+
+    def drive(st, steps):
+        while steps < max_steps:
+            acts = [a for a in ex.enabled(st) if a[0].startswith("d:") and not any(a[0][2:].startswith(s) for s in skip)]
+            if not acts:
+                break
+            a = min(acts, key=lambda a: a[1])
+            tr, b = ex.apply(st, a)
+            st, _ = ex.fold(st, tr, b)
+            st.blob = pack(w.image())
+            steps += 1
+        return st, steps
+
+    for name in setup_actions:
+        st = act(st, name)
+    st, steps = drive(st, steps)
+    # operator actions (cancel / pause / signal ...) once only the skipped messages are left, then drive on
+    for name in post_actions:
+        st = act(st, name)
+        st, steps = drive(st, steps)
     ex.restore(st)
     w.drain_audit()
     img = w.image()
@@ -439,12 +453,16 @@ class DrainMemo:
 
 
 def run_engine_scenario(workload, skip, scripts, oracle, bound, *, shard=None, setup_actions=(), time_cap=1500,
-                        max_executions=60000, events=False, prep_hook=None, extra_scripts=None, fault=None):
+                        max_executions=60000, events=False, prep_hook=None, extra_scripts=None, fault=None,
+                        post_actions=(), budget=None):
     """Generic E3 job: prepare sequentially, race `scripts` (process_one counts per worker),
     drain, evaluate oracle(ctx) -> list of violations.  ctx carries everything observed."""
     from .world import dumps
 
-    prep = prepare(workload, skip, events=events, setup_actions=setup_actions)
+    if post_actions or budget:
+        prep = prepare(workload, skip, events=events, setup_actions=setup_actions, post_actions=post_actions, budget=budget)
+    else:
+        prep = prepare(workload, skip, events=events, setup_actions=setup_actions)
     if prep_hook:
         prep_hook(prep)
     memo = DrainMemo(workload, events=events)
